@@ -148,6 +148,9 @@ def gen_program(seed: int) -> Dict[str, Any]:
                 ops.append({"op": "zone", "target": sn, "name": "shapezone"})
         entities += shape_names
     for lab in sorted(labels_used):
+        if rs.chance(0.15):
+            # a geometry declared twice: the later declaration is the one that counts
+            ops.append({"op": "geometry", "name": lab, "props": [GEOMS[lab][0], "note superseded"]})
         ops.append({"op": "geometry", "name": lab, "props": GEOMS[lab]})
     order = rs.shuffled(entities)
     for e in order:
